@@ -273,7 +273,7 @@ def skeleton(fn: ast.FunctionDef) -> list:
             elif isinstance(s, (ast.Assign, ast.AugAssign, ast.AnnAssign)):
                 tgts = s.targets if isinstance(s, ast.Assign) else [s.target]
                 if any(_mentions(t) for t in tgts) or (s.value is not None and _mentions(s.value)) or any(
-                        isinstance(t, ast.Name) and t.id in ("this", "msg", "sql") for t in tgts):
+                        isinstance(t, ast.Name) and t.id in ("this", "msg") for t in tgts):
                     op = "aug" if isinstance(s, ast.AugAssign) else "set"
                     out.append(f"{d}:{op}:{','.join(_const(t) for t in tgts)}={_const(s.value)}")
             elif isinstance(s, ast.Expr) and isinstance(s.value, ast.Call):
